@@ -8,6 +8,7 @@
   Helper lemmas live in Proofs/Addr{,Std,Text}.lean.
 -/
 import BtcVerif.Proofs.AddrText
+import BtcVerif.Proofs.CryptoLen
 
 namespace BtcVerif.C12
 open BtcVerif BtcVerif.Spec BtcVerif.AddrProofs
@@ -16,23 +17,52 @@ open BtcVerif.Model.Addr
 
 /-! ### chain selection -/
 
-/-- one `SelectParams(name)`: a chain name makes both globals that chain's parameters; any other
-    name raises ValueError and leaves both unchanged -/
+/-- one `SelectParams(name)`: a chain name makes both globals ONE object holding that chain's
+    parameters; any other name raises ValueError and leaves both unchanged -/
 theorem select_step (st : ChainState) (name : String) :
     selectParams st name = match chainByName? name with
-                           | some q => (⟨q, q⟩, none)
+                           | some q => (⟨q, .full q⟩, none)
                            | none => (st, some .valueerr) := selectParams_eq st name
 
-/-- after every history of `SelectParams` calls (valid and unknown names, any length),
-    `bitcoin.params` and `bitcoin.core.coreparams` both are the parameters of the last chain named
-    (mainnet if none was) -/
+/-- after every history of `SelectParams` calls (valid and unknown names, any length) starting from
+    the state `import bitcoin` leaves:
+    * `bitcoin.params` — the only global wallet.py / bech32.py read — is the parameter record of the
+      last chain named (mainnet if none was), and the core fields of `bitcoin.core.coreparams` are
+      that chain's;
+    * from the first successful call on, `bitcoin.core.coreparams` is the same object as
+      `bitcoin.params`;
+    * before it, `bitcoin.core.coreparams` is the core-only `CoreMainParams()` (no prefixes, no HRP,
+      no magic). -/
 theorem select_inv (history : List String) :
     (runHistory history).params = selected history ∧
-    (runHistory history).coreparams = selected history := by
-  have := foldl_select mainnet history
-  unfold runHistory initState
-  rw [this]
-  exact ⟨rfl, rfl⟩
+    (runHistory history).coreparams.fields = Spec.Addr.coreFields (selected history) ∧
+    ((∃ n ∈ history, (chainByName? n).isSome) →
+        (runHistory history).coreparams = .full (selected history)) ∧
+    ((∀ n ∈ history, chainByName? n = none) →
+        (runHistory history).coreparams = .coreOnly (Spec.Addr.coreFields mainnet)) := by
+  have h := foldl_select_from initState history
+  have hsel : selFrom mainnet history = selected history := rfl
+  unfold runHistory
+  rw [h]
+  by_cases hnil : history.filterMap chainByName? = []
+  · have hall : ∀ n ∈ history, chainByName? n = none := by
+      intro n hn
+      cases hc : chainByName? n with
+      | none => rfl
+      | some q =>
+        have : q ∈ history.filterMap chainByName? := List.mem_filterMap.2 ⟨n, hn, hc⟩
+        rw [hnil] at this; cases this
+    have hs : selected history = mainnet := by unfold selected; rw [hnil]; rfl
+    rw [if_pos hnil, hs]
+    refine ⟨rfl, rfl, ?_, fun _ => rfl⟩
+    rintro ⟨n, hn, hsome⟩
+    rw [hall n hn] at hsome; cases hsome
+  · rw [if_neg hnil]
+    refine ⟨hsel, by rw [← hsel]; rfl, fun _ => by rw [← hsel]; rfl, ?_⟩
+    intro hall
+    exfalso; apply hnil
+    rw [List.filterMap_eq_nil_iff]
+    exact hall
 
 /-- the selected parameters are always one of the four rows of the chain table -/
 theorem selected_mem (history : List String) : selected history ∈ chainTable := by
@@ -103,6 +133,28 @@ theorem roundtrip_after_history (H H160 : Bytes → Bytes) (hH : ∀ x, 4 ≤ (H
   have hc : (runHistory history).params ∈ chainTable := by rw [hs]; exact selected_mem history
   exact roundtrip H H160 hH _ hc t payload hlen
 
+/-! ### variants accepted by the P2PKH converter -/
+
+/-- non-canonical pushes: any script whose canonical re-encoding (`CScript(tuple(script))`) is the
+    standard P2PKH script of `payload` is read by the P2PKH converter as the prescribed P2PKH address -/
+theorem noncanonical_p2pkh (H160 : Bytes → Bytes) (chain : ChainParams) (hc : chain ∈ chainTable)
+    (spk payload : Bytes) (hlen : payload.length = 20) (bare : Bool)
+    (hcanon : canonicalize spk = .ok (stdScript .p2pkh payload)) :
+    p2pkhFromScript H160 chain spk true bare = .ok (prescribedAddr chain .p2pkh payload) := by
+  obtain ⟨hpk, _, hne⟩ := chain_versions chain hc
+  exact p2pkhFromScript_of_canon H160 chain spk payload hlen (by omega) hne bare hcanon
+
+/-- bare-pubkey scripts `<pubkey> CHECKSIG` with a 33- or 65-byte key (any bytes): the P2PKH converter
+    gives the P2PKH address of the hash160 of the WHOLE pushed key under the chain's version byte.
+    (D18: the shipped code hashes only 64 of the 65 bytes of an uncompressed key — pinned by
+    test_wallet.py, known finding; the model states the property-conforming behaviour.) -/
+theorem bare_pubkey (H160 : Bytes → Bytes) (chain : ChainParams) (hc : chain ∈ chainTable)
+    (pubkey : Bytes) (hl : pubkey.length = 33 ∨ pubkey.length = 65) :
+    p2pkhFromScript H160 chain (Spec.Addr.barePubkeyScript pubkey) true true =
+      .ok (Spec.Addr.barePubkeyAddr H160 chain pubkey) := by
+  obtain ⟨hpk, _, hne⟩ := chain_versions chain hc
+  exact p2pkhFromScript_barePubkey H160 chain pubkey hl (by omega) hne
+
 /-! ### refusal -/
 
 /-- `CBitcoinAddress(s)` on an arbitrary string under an arbitrary chain record: either an address
@@ -162,6 +214,31 @@ theorem cross_chain_refused_bech32 (H : Bytes → Bytes) (A B : ChainParams) (hA
   · rw [h']
   · rw [h']
 
+/-! ### the same for the real hash (SHA-256d, `Crypto.hash256_length`) -/
+
+theorem hash256_ge4 (x : Bytes) : 4 ≤ (Crypto.hash256 x).length := by
+  rw [Crypto.hash256_length]; omega
+
+/-- `roundtrip_after_history` with `H` = SHA-256d: no hypothesis on the hash is left -/
+theorem roundtrip_sha256d (H160 : Bytes → Bytes) (history : List String) (t : AddrClass) (payload : Bytes)
+    (hlen : payload.length = t.payloadLen) :
+    let chain := (runHistory history).params
+    chain = selected history ∧
+    fromScript H160 chain (stdScript t payload) = .ok (prescribedAddr chain t payload) ∧
+    ∃ text, toText Crypto.hash256 chain (prescribedAddr chain t payload) = .ok text ∧
+      prescribedText Crypto.hash256 chain t payload = some text ∧
+      parse Crypto.hash256 chain text = .ok (prescribedAddr chain t payload) ∧
+      toScript chain (prescribedAddr chain t payload) = .ok (stdScript t payload) :=
+  roundtrip_after_history Crypto.hash256 H160 hash256_ge4 history t payload hlen
+
+/-- `cross_chain_refused_base58` with `H` = SHA-256d -/
+theorem cross_chain_refused_base58_sha256d (A B : ChainParams) (hA : A ∈ chainTable) (hB : B ∈ chainTable)
+    (t : AddrClass) (ht : t = .p2pkh ∨ t = .p2sh) (payload : Bytes) (hlen : payload.length = 20)
+    (hdiff : prescribedVer A t ≠ B.pubkeyAddr ∧ prescribedVer A t ≠ B.scriptAddr) :
+    ∃ text, prescribedText Crypto.hash256 A t payload = some text ∧
+      parse Crypto.hash256 B text = .error .addrerr :=
+  cross_chain_refused_base58 Crypto.hash256 hash256_ge4 A B hA hB t ht payload hlen hdiff
+
 /-! ### non-vacuity -/
 
 -- the table has the four chains and their prefixes differ as the cross-chain theorems need
@@ -171,6 +248,10 @@ example : prescribedVer mainnet .p2pkh ≠ testnet.pubkeyAddr ∧ prescribedVer 
 -- a history with unknown names
 example : selected ["testnet", "foo", "regtest", "bar"] = regtest := by decide
 example : (List.replicate 20 (0xab : UInt8)).length = AddrClass.p2pkh.payloadLen := by decide
+-- the fresh-import state: params is mainnet, coreparams the core-only object
+example : runHistory [] = ⟨mainnet, .coreOnly (Spec.Addr.coreFields mainnet)⟩ := rfl
+example : (runHistory ["foo", "signet"]).coreparams = .full signet := by decide
+example : (List.replicate 65 (4 : UInt8)).length = 33 ∨ (List.replicate 65 (4 : UInt8)).length = 65 := by decide
 -- `hH` is satisfiable
 example : ∀ x : Bytes, 4 ≤ ((fun _ => [1, 2, 3, 4]) x : Bytes).length := by intro _; simp
 
